@@ -134,22 +134,31 @@ class ParserModel:
 
 
 def config_keys(ctx):
-    """{key: default} from Config.__init__ (self.K = kwargs.get('K', const))."""
+    """{key: default} from Config.__init__, read from its summary: every attribute it sets must be `kwargs.get(<same name>, <constant>)`
+    (written out, or driven by a table of defaults)."""
     fi = ctx.fn("bits.config.Config.__init__")
+    kwp = P("**kwargs", tm.DICT)
     keys, other = {}, []
-    for st in fi.node.body:
-        ok = False
-        if isinstance(st, ast.Assign) and len(st.targets) == 1:
-            t = st.targets[0]
-            if isinstance(t, ast.Attribute) and isinstance(t.value, ast.Name) and t.value.id == "self" and isinstance(st.value, ast.Call):
-                c = st.value
-                if dotted_parts(c.func) == ["kwargs", "get"] and len(c.args) == 2 and all(isinstance(a, ast.Constant) for a in c.args) and c.args[0].value == t.attr:
-                    keys[t.attr] = c.args[1].value
-                    ok = True
-        harmless = isinstance(st, ast.Pass) or (isinstance(st, ast.Expr) and isinstance(st.value, ast.Constant)) or (
-            isinstance(st, ast.Expr) and isinstance(st.value, ast.Call) and (dotted_parts(st.value.func) or [""])[0] in ("log", "logging", "print"))
-        if not ok and not harmless:
-            other.append(ast.unparse(st)[:80])
+    try:
+        s = ctx.evaluator().run(fi)
+    except Exception as e:  # fall back to nothing: reported as "does something else"
+        return fi, {}, ["__init__ could not be summarised: %s" % e]
+    if len(s.exits) != 1 or s.raises():
+        other.append("__init__ has %d exits" % len(s.exits))
+    for name, val in s.env.items():
+        if not name.startswith("self."):
+            continue
+        k = name[5:]
+        if isinstance(val, T) and val.op == "get" and tm.veq(rules.unfz(val.args[0]), kwp) and val.args[1] == k and tm.is_conc(val.args[2]):
+            keys[k] = val.args[2]
+        else:
+            other.append("self.%s = %s" % (k, tm.show(val)[:60]))
+    for c in s.calls:
+        if c[0] in ("builtins.setattr",) and not (len(c[1]) == 3 and isinstance(c[1][1], str)):
+            other.append("setattr with a computed name")
+    for n in ast.walk(fi.node):
+        if isinstance(n, ast.Attribute) and n.attr == "__dict__":
+            other.append("__dict__ access")
     return fi, keys, other
 
 
@@ -311,19 +320,8 @@ def check_load_config(ctx, keys):
     R = ctx.R
     fl = ctx.fn("bits.config.Config.load_config")
     ev = ctx.evaluator()
-    s0 = ev.run(fl)
-    ex = {}
-    for c in s0.calls:
-        if c[0] == "os.path.exists" and len(c[1]) == 1:
-            for name in ("config.toml", "config.json"):
-                if any(t == name for t in tm.subterms(c[1][0])):
-                    ex[name] = tm.app("os.path.exists", [c[1][0]])
-    if set(ex) != {"config.toml", "config.json"}:
-        R.error("C20.4", "load_config: the os.path.exists tests for config.toml / config.json were not found (%s)" % sorted(ex))
-        return
-    for c in s0.calls:
-        if c[0] == "os.path.exists":
-            ex_args = c[1]
+    cd = P("config_dir", tm.STR)
+    ex = {name: tm.app("os.path.exists", [T("pathjoin", (cd, name), tm.STR)]) for name in ("config.toml", "config.json")}
     for toml, js in ((True, True), (True, False), (False, True), (False, False)):
         a = {}
         for name, v in (("config.toml", toml), ("config.json", js)):
@@ -363,8 +361,11 @@ def check_load_config(ctx, keys):
     ev.assumptions = {}
     mod = ctx.prog.module("bits.config")
     bad = []
+    init_node = ctx.fn("bits.config.Config.__init__").node
+    inside_init = {id(n) for n in ast.walk(init_node)}
     for n in ast.walk(mod.tree):
-        if isinstance(n, ast.Call) and dotted_parts(n.func) == ["setattr"]:
+        # inside __init__ a setattr over the table of defined names is the fixed-name assignment itself (judged by config_keys)
+        if isinstance(n, ast.Call) and dotted_parts(n.func) == ["setattr"] and id(n) not in inside_init:
             bad.append(n.lineno)
         if isinstance(n, ast.Attribute) and n.attr == "__dict__":
             bad.append(n.lineno)
